@@ -372,6 +372,65 @@ func signingCoverage(c *an.Ctx, rule, short, typ string, exempt ...string) {
 		}
 	}
 	cover(st, "", true)
+	// every fixed-width copy into the signed buffer has room for the whole field (copy silently truncates)
+	for _, e := range p.CodecEvents(sb) {
+		call, isCall := e.Instr.(*ssa.Call)
+		if e.Op != "W" || e.Width <= 0 || !isCall || call.Parent() != sb || e.Off == "" {
+			continue // (a codec that advances a cursor in a loop is sized by C15's CODEC-SIZE rule)
+		}
+		if bi, ok := call.Call.Value.(*ssa.Builtin); !ok || bi.Name() != "copy" {
+			continue
+		}
+		fi0 := p.Info(sb)
+		dst := fi0.Term(call.Call.Args[0])
+		sys := fi0.SysFor(call)
+		okFit := sys.ProveGE(an.LenTerm(dst), int64(e.Width))
+		cnt++
+		c.Check(okFit, rule, sb, call.Pos(), an.KeyOf(sb, "copy-fits:"+e.Field), fmt.Sprintf("the buffer region that receives %s has room for all its %d bytes (copy would silently drop the rest, leaving them unsigned)", e.Field, e.Width), "len(destination) "+sys.Describe(an.LenTerm(dst)))
+	}
+	// a builder of the form Serialize()[:H] with a constant H: every field outside the signature must lie below the cut
+	{
+		fi0 := p.Info(sb)
+		for _, b := range sb.Blocks {
+			for _, in := range b.Instrs {
+				sl, isSl := in.(*ssa.Slice)
+				if !isSl || sl.High == nil {
+					continue
+				}
+				t := fi0.Term(sl)
+				base := t.A[0]
+				if (base.K != an.KPure && base.K != an.KCall) || !strings.HasSuffix(base.Callee(), ").Serialize") {
+					continue
+				}
+				if hv, isC := t.A[2].IsConst(); isC && hv == "end" {
+					continue
+				}
+				if isLenMinus(t.A[2], 64) {
+					continue // the len-K form is decided by the signed-span rule below
+				}
+				// the cut as constant + symbolic part (34 + len(Location) + 4)
+				hc, hs, okH := linearOffset(an.OffsetKey(t.A[2]))
+				if !okH {
+					continue
+				}
+				ser := p.Method(short, typ, "Serialize")
+				if ser == nil {
+					continue
+				}
+				for _, e := range p.CodecEvents(ser) {
+					if e.Op != "W" || e.Width <= 0 || isExempt(e.Field) || e.Off == "" {
+						continue
+					}
+					oc, os, okO := linearOffset(e.Off)
+					if !okO || os != hs {
+						continue
+					}
+					cnt++
+					c.Check(oc+e.Width <= hc, rule, sb, sl.Pos(), an.KeyOf(sb, "below-cut:"+e.Field), fmt.Sprintf("%s.SigningBytes keeps the serialized bytes of %s (offset %d%s, %d bytes) inside the part it signs", typ, e.Field, oc, symText(os), e.Width), fmt.Sprintf("the serialization is cut at byte %d%s", hc, symText(hs)))
+				}
+			}
+		}
+	}
 	// a builder of the form Serialize()[:len-K]: K must be exactly the size of
 	// the exempt (signature) fields and those must be the last thing serialized
 	fi := p.Info(sb)
@@ -474,4 +533,31 @@ func fixedSize(t types.Type) int {
 		return e * int(u.Len())
 	}
 	return -1
+}
+
+// linearOffset splits a canonical offset key ("#34", "len(x)", "bin:+(#34,len(x))") into its constant and its symbolic part.
+func linearOffset(k string) (int, string, bool) {
+	switch {
+	case strings.HasPrefix(k, "#"):
+		v, err := strconv.Atoi(k[1:])
+		return v, "", err == nil
+	case strings.HasPrefix(k, "bin:+(#"):
+		rest := k[len("bin:+(#"):]
+		i := strings.Index(rest, ",")
+		if i < 0 || !strings.HasSuffix(rest, ")") {
+			return 0, "", false
+		}
+		v, err := strconv.Atoi(rest[:i])
+		return v, rest[i+1 : len(rest)-1], err == nil
+	case k == "":
+		return 0, "", false
+	}
+	return 0, k, true
+}
+
+func symText(s string) string {
+	if s == "" {
+		return ""
+	}
+	return "+" + s
 }
